@@ -292,8 +292,17 @@ func (o *c14Out) idsCase(k *c14sKind, w *c14sWorld, tx *bbolt.Tx, f c14sFilter, 
 		}
 	}
 	node := f.node(k.store(w))
-	o.emit(stat, c14sLine(k.name, true, f, ops, w.pmask, w.cmask),
+	o.emit(stat, c14sLine(k.name, true, f, ops, w.pmask, w.cmask)+c14pSuffix(len(ops)),
 		c14RunOps(func() ast.SetCursor { return k.cursor(w, tx, node) }, ops, c14SeekPlain))
+	// the same program under observation protocols (c14_proto.go): nothing looked at before the end; Current before IsValid
+	if c14pProto == nil && !f.paged() && len(ops) >= 1 && len(ops) <= 2 {
+		for _, proto := range c14pThin(len(ops) + 1) {
+			c14pProto = proto
+			o.emit(stat, c14sLine(k.name, true, f, ops, w.pmask, w.cmask)+c14pSuffix(len(ops)),
+				c14RunOps(func() ast.SetCursor { return k.cursor(w, tx, node) }, ops, c14SeekPlain))
+		}
+		c14pProto = nil
+	}
 }
 
 // ---- QueryWithCursorC ---------------------------------------------------------------------------------------
